@@ -88,6 +88,31 @@ pub fn c01(tier: Tier) -> Vec<Scenario> {
         out.push(s);
     }
 
+    // another handle abandons a pending single operation; the server may still answer it late:
+    // whatever the waiting caller is handed must have come from the server under its ID
+    let mut s = Scenario::new("C01/abandon-pending-single");
+    s.clients = vec![
+        client(vec![single(OpKind::Delete, "v0")]),
+        client(vec![Call::Abandon(AbTarget::Marker("v0".into())), single(OpKind::Compare, "b1")]),
+    ];
+    s.plans.insert("b1".into(), Plan { rc: 5, ..Default::default() });
+    s.answer_after_abandon = true;
+    s.select_starts = vec![0, 1];
+    s.oracles = route.clone();
+    out.push(s);
+
+    // a stream dropped without finish(): the rest of its items arrive late, for nobody, and
+    // must not disturb the operations of the other handle
+    let mut s = Scenario::new("C01/stream-dropped-unfinished");
+    s.clients = vec![
+        client(vec![start("s0", Chain::Direct), Call::Next, Call::DropHandle]),
+        client(vec![single(OpKind::Compare, "b0"), single(OpKind::Delete, "b1")]),
+    ];
+    s.plans.insert("s0".into(), plan_items(&[E, E]));
+    s.select_starts = vec![0, 1];
+    s.oracles = route.clone();
+    out.push(s);
+
     // byte level: every frame may be cut anywhere (Net(One) / Net(Frame) / Net(All))
     let mut s = Scenario::new("C01/R(1,1,0)-bytes");
     s.clients = vec![client(vec![single(OpKind::Bind, "a")]), client(vec![Call::Search { marker: "s".into(), timeout: None }])];
@@ -123,9 +148,13 @@ pub enum Step {
     StreamTimedOutFinish,
     /// a user-defined adapter fails mid-stream while the search is live, then finish()
     CustomAdapterFails,
+    /// [PagedResults, EntriesOnly] (pager outermost), two pages read to the end
+    PagedEntries2,
+    /// the same chain, finished while page 2 is open
+    PagedEntriesEarly,
 }
 
-pub const ALL_STEPS: [Step; 16] = [
+pub const ALL_STEPS: [Step; 18] = [
     Step::SingleOk,
     Step::SingleErr,
     Step::TimedOut,
@@ -142,6 +171,8 @@ pub const ALL_STEPS: [Step; 16] = [
     Step::SearchAllTimedOut,
     Step::StreamTimedOutFinish,
     Step::CustomAdapterFails,
+    Step::PagedEntries2,
+    Step::PagedEntriesEarly,
 ];
 
 /// append the calls of one step (markers are made unique with `tag`)
@@ -215,6 +246,14 @@ fn push_step(s: &mut Scenario, script: &mut Vec<Call>, step: Step, tag: &str) {
         Step::CustomAdapterFails => {
             script.extend([start(&m("cf"), Chain::FailAfter(1)), Call::Next, Call::Next, Call::Finish]);
             s.plans.insert(m("cf"), plan_items(&[E, E, E]));
+        }
+        Step::PagedEntries2 => {
+            script.extend([start(&m("qg"), Chain::PagedEntries(1)), Call::Next, Call::Next, Call::Next, Call::Finish]);
+            s.plans.insert(m("qg"), Plan { total: 2, ..Default::default() });
+        }
+        Step::PagedEntriesEarly => {
+            script.extend([start(&m("qe"), Chain::PagedEntries(1)), Call::Next, Call::Next, Call::Finish]);
+            s.plans.insert(m("qe"), Plan { total: 3, ..Default::default() });
         }
         Step::Unsolicited => {
             script.push(single(OpKind::Bind, &m("un")));
@@ -323,6 +362,26 @@ pub fn c13(tier: Tier) -> Vec<Scenario> {
         out.push(c13_pair(Step::SingleOk, Step::SearchAll));
         out.push(c13_pair(Step::TimedOut, Step::EntriesOnlyFull));
         out.push(c13_pair(Step::Paged2, Step::DirectEarly));
+        // two early finishes back to back: their ID releases reach the driver in either order
+        out.push(c13_pair(Step::DirectEarly, Step::EntriesOnlyEarly));
+    }
+    // the request write stalls, the timeout of the waiting call fires meanwhile (the driver has
+    // the operation in hand by then), the write completes later
+    for kind in ["start", "single", "search()"] {
+        let mut s = Scenario::new(&format!("C13/timeout-while-write-stalls-{}", kind));
+        let first = match kind {
+            "start" => Call::Start { marker: "w0".into(), chain: Chain::Direct, timeout: Some(10), ctrl: false, opts: false, own_paging: false },
+            "single" => tsingle(OpKind::Compare, "w0", 10),
+            _ => Call::Search { marker: "w0".into(), timeout: Some(10) },
+        };
+        s.clients = vec![client(vec![first, single(OpKind::Bind, "after")])];
+        s.plans.insert("w0".into(), Plan { silent: true, ..Default::default() });
+        s.faults = vec![FaultKind::WritePendingOnce];
+        s.fault_budget = 1;
+        s.tick_budget = 3;
+        s.select_starts = vec![0, 1];
+        s.oracles = Oracles { leak: true, ids: true, route: true, ..Default::default() };
+        out.push(s);
     }
     out
 }
@@ -492,6 +551,39 @@ pub fn c10(tier: Tier) -> Vec<Scenario> {
         s.oracles = Oracles { stream: true, route: true, ..Default::default() };
         out.push(s);
     }
+    // what a user-defined adapter sees on the stream after the call up the chain failed
+    let mut s = Scenario::new("C10/Probe/failure-seen-inside-the-chain");
+    s.clients = vec![ClientSpec { script: vec![start("s", Chain::Probe), Call::Next], free: 3 }];
+    s.plans.insert("s".into(), plan_items(&[E, E]));
+    s.faults = vec![FaultKind::Eof];
+    s.fault_budget = 1;
+    s.select_starts = vec![1];
+    s.oracles = Oracles { stream: true, route: true, ..Default::default() };
+    out.push(s);
+    // adapted streams over several pages: references on every page, both adapter orders; the
+    // final result's other controls keep the server's order
+    for chain in [Chain::Paged(1), Chain::EntriesPaged(1), Chain::PagedEntries(1), Chain::PagedEntries(2)] {
+        for extra in [false, true] {
+            let mut s = Scenario::new(&format!("C10/{:?}/page-refs/extra-ctrl={}", chain, extra));
+            s.clients = vec![ClientSpec { script: vec![start("pg", chain.clone())], free: 8 }];
+            s.plans.insert("pg".into(), Plan { total: 2, page_refs: true, res_ctrls: true, extra_res_ctrl: extra, rc: if extra { 4 } else { 0 }, ..Default::default() });
+            s.select_starts = vec![1];
+            s.oracles = Oracles { stream: true, route: true, leak: true, ids: true, paged: true, ..Default::default() };
+            out.push(s);
+        }
+    }
+    // two result controls on a direct stream, search() and a single operation
+    let mut s = Scenario::new("C10/two-result-controls");
+    s.clients = vec![
+        client(vec![start("s", Chain::Direct), Call::Next, Call::Next, Call::Finish, single(OpKind::Compare, "c0")]),
+        client(vec![Call::Search { marker: "t".into(), timeout: None }]),
+    ];
+    for m in ["s", "t", "c0"] {
+        s.plans.insert(m.into(), Plan { items: vec![E], res_ctrls: true, extra_res_ctrl: true, ..Default::default() });
+    }
+    s.select_starts = vec![1];
+    s.oracles = Oracles { stream: true, route: true, leak: true, ..Default::default() };
+    out.push(s);
     if tier == Tier::Thorough {
         // a second client doing single operations meanwhile
         for chain in [Chain::Direct, Chain::EntriesOnly] {
@@ -510,7 +602,7 @@ pub fn c10(tier: Tier) -> Vec<Scenario> {
 pub fn c16(tier: Tier) -> Vec<Scenario> {
     let mut out = vec![];
     let extras = ["none", "ctrl", "opts", "timeout"];
-    let cookies = [CookieStyle::Distinct, CookieStyle::Constant, CookieStyle::EmptyFirst];
+    let cookies = [CookieStyle::Distinct, CookieStyle::Constant, CookieStyle::EmptyFirst, CookieStyle::TailLooksEmpty];
     let mut k = 0usize;
     for n in 0..=5usize {
         for p in 1..=3i32 {
@@ -562,8 +654,21 @@ pub fn c16(tier: Tier) -> Vec<Scenario> {
             }
         }
     }
+    // the pager outermost, EntriesOnly inside; references on every page
+    for n in 0..=tier.pick(3usize, 5) {
+        for p in 1..=2i32 {
+            for refs in [false, true] {
+                let mut s = Scenario::new(&format!("C16/pager-outermost/n{}p{}/refs={}", n, p, refs));
+                s.clients = vec![ClientSpec { script: vec![start("pg", Chain::PagedEntries(p))], free: n as u8 + 3 }];
+                s.plans.insert("pg".into(), Plan { total: n, page_refs: refs, cookie: if n % 2 == 0 { CookieStyle::TailLooksEmpty } else { CookieStyle::Distinct }, ..Default::default() });
+                s.select_starts = vec![1];
+                s.oracles = Oracles { paged: true, stream: true, route: true, leak: true, ids: true, ..Default::default() };
+                out.push(s);
+            }
+        }
+    }
     // a caller-supplied paging control must be refused at start
-    for chain in [Chain::Paged(2), Chain::EntriesPaged(2)] {
+    for chain in [Chain::Paged(2), Chain::EntriesPaged(2), Chain::PagedEntries(2)] {
         let mut s = Scenario::new(&format!("C16/own-paging-control/{:?}", chain));
         s.clients = vec![client(vec![
             Call::Start { marker: "pg".into(), chain, timeout: None, ctrl: true, opts: false, own_paging: true },
@@ -661,6 +766,30 @@ pub fn c12(tier: Tier) -> Vec<Scenario> {
     s.plans.insert("s".into(), plan_items(&[]));
     s.tick_budget = 3;
     s.select_starts = vec![1];
+    s.oracles = o.clone();
+    out.push(s);
+    // the search's own time limit (SearchOptions, seconds, for the server) has nothing to do
+    // with the client-side timeout
+    for chain in [Chain::Direct, Chain::EntriesOnly] {
+        let mut s = Scenario::new(&format!("C12/timed-stream-with-search-options-{:?}", chain));
+        s.clients = vec![client(vec![
+            Call::Start { marker: "so".into(), chain, timeout: Some(10), ctrl: false, opts: true, own_paging: false },
+            Call::Next,
+            Call::Finish,
+            single(OpKind::Bind, "after"),
+        ])];
+        s.plans.insert("so".into(), Plan { silent: true, ..Default::default() });
+        s.tick_budget = 3;
+        s.select_starts = vec![1];
+        s.oracles = o.clone();
+        out.push(s);
+    }
+    // after a timeout the handle keeps working: abandoning the timed-out ID, then another operation
+    let mut s = Scenario::new("C12/abandon-after-timeout");
+    s.clients = vec![client(vec![tsingle(OpKind::Compare, "t0", 10), Call::Abandon(AbTarget::OwnLast), single(OpKind::Bind, "after")])];
+    s.plans.insert("t0".into(), Plan { silent: true, ..Default::default() });
+    s.tick_budget = 3;
+    s.select_starts = vec![0, 1];
     s.oracles = o.clone();
     out.push(s);
     // a timed search through PagedResults against a silent server: next() must time out
@@ -857,6 +986,24 @@ pub fn c04(tier: Tier) -> Vec<Scenario> {
         s.oracles = o.clone();
         out.push(s);
     }
+
+    // the server announces the disconnection (unsolicited notification, ID 0) and closes: the
+    // pending work fails, nobody is handed the notice as if it were their response
+    let mut s = Scenario::new("C04/notice-of-disconnection-then-close");
+    s.clients = vec![
+        client(vec![single(OpKind::Bind, "a0")]),
+        client(vec![start("s", Chain::Direct), Call::Next, Call::Next, Call::Finish]),
+        client(vec![Call::Search { marker: "t".into(), timeout: None }]),
+    ];
+    s.plans.insert("a0".into(), Plan { silent: true, ..Default::default() });
+    s.plans.insert("s".into(), Plan { silent: true, ..Default::default() });
+    s.plans.insert("t".into(), Plan { silent: true, ..Default::default() });
+    s.bogus = vec![BogusKind::Zero];
+    s.faults = vec![FaultKind::Eof];
+    s.fault_budget = 1;
+    s.select_starts = vec![1, 3];
+    s.oracles = o.clone();
+    out.push(s);
 
     // unbind by another handle while operations are pending
     let mut s = Scenario::new("C04/unbind-while-pending");
